@@ -27,11 +27,12 @@ Cur(P, s, a)  == P.actors[a][s.pc[a]]
 
 NoBlk == [kind |-> "none", o |-> 0, m |-> 0]
 
-\* phases of an actor: "run" (executing user code, will issue operation pc), "issued" (trace mode: simcall issued,
-\* not yet handled), "blocked" (simcall handled, not answered), "answered" (answer available, not yet observed),
+\* phases of an actor: "unborn" (will be created by another actor), "run" (executing user code, will issue operation pc),
+\* "issued" (trace mode: simcall issued, not yet handled), "blocked" (simcall handled, not answered), "answered" (answer
+\* available, not yet observed), "dying" (killed, will run once more to die), "exiting" (running its on_exit callbacks),
 \* "done" (all operations performed), "dead" (killed)
 S0(P) == [ pc   |-> [a \in Actors(P) |-> 1],
-           ph   |-> [a \in Actors(P) |-> IF NOps(P, a) = 0 THEN "done" ELSE "run"],
+           ph   |-> [a \in Actors(P) |-> IF P.spawn[a] THEN "unborn" ELSE IF NOps(P, a) = 0 THEN "done" ELSE "run"],
            res  |-> [a \in Actors(P) |-> "none"],      \* result of the current operation once answered
            pres |-> [a \in Actors(P) |-> "none"],      \* result to deliver when the pending mutex re-acquisition succeeds
            blk  |-> [a \in Actors(P) |-> NoBlk],       \* what a blocked actor waits for
@@ -54,6 +55,11 @@ S0(P) == [ pc   |-> [a \in Actors(P) |-> 1],
            cur  |-> [a \in Actors(P) |-> 0],           \* activity of the blocking operation in progress
            sub  |-> [a \in Actors(P) |-> 1],           \* simcall number inside the current operation (put = isend + wait...)
            rval |-> [a \in Actors(P) |-> 0],           \* value part of the answer (payload id)
+           oe   |-> [a \in Actors(P) |-> <<>>],        \* on_exit callbacks registered by a (ids, registration order)
+           oex  |-> [a \in Actors(P) |-> <<>>],        \* callbacks still to run while a is exiting (execution order)
+           oerun |-> [a \in Actors(P) |-> <<>>],       \* ghost: callbacks run so far
+           dmn  |-> [a \in Actors(P) |-> FALSE],       \* daemon
+           kt   |-> [a \in Actors(P) |-> -1],          \* kill time (absolute date), -1 = none
            now  |-> 0,
            obs  |-> [a \in Actors(P) |-> <<>>],        \* history: results observed by a
            ov   |-> [a \in Actors(P) |-> <<>>],        \* history: values observed by a (payload received, 0 otherwise)
@@ -186,13 +192,54 @@ RECURSIVE CancelAll(_, _, _)
 CancelAll(P, s, cs) == IF cs = {} THEN s ELSE LET c == CHOOSE x \in cs : TRUE IN CancelAll(P, CancelAct(P, s, c), cs \ {c})
 ExitCleanup(P, s, a) == CancelAll(P, s, Mine(s, a))
 
+\* ------------------------------------------------------------------ actor lifecycle (C11)
+Alive(s, a)  == s.ph[a] \in {"run", "issued", "blocked", "answered", "dying", "exiting"}
+Reverse(q)   == [i \in 1..Len(q) |-> q[Len(q) + 1 - i]]
+Joiners(P, s, x) == { a \in Actors(P) : s.ph[a] = "blocked" /\ s.blk[a].kind = "join" /\ s.blk[a].o = x }
+RECURSIVE AnswerSet(_, _, _)
+AnswerSet(s, as, r) == IF as = {} THEN s ELSE LET a == CHOOSE x \in as : TRUE IN AnswerSet(Answer(s, a, r), as \ {a}, r)
+\* the actor is gone: its joiners are released, what it still took part in is cancelled
+Finish(P, s, a, how) ==
+  AnswerSet(ExitCleanup(P, [s EXCEPT !.ph[a] = how, !.kt[a] = -1, !.tmr[a] = -1, !.blk[a] = NoBlk], a), Joiners(P, s, a), "ok")
+\* ActorImpl::exit(): the victim leaves every queue, its pending timer is dropped, its activities are cancelled; it will run
+\* once more, only to die (ForcefulKillException)
+KillActor(P, s, t) ==
+  IF ~Alive(s, t) \/ s.ph[t] \in {"dying", "exiting"} THEN s
+  ELSE IF s.ph[t] = "run" /\ s.pc[t] = 1 /\ s.sub[t] = 1
+  THEN Finish(P, s, t, "dead")      \* created but never scheduled: it dies without running any code
+  ELSE LET b == s.blk[t]
+           q == CASE b.kind = "sem" -> [s EXCEPT !.sq[b.o] = RemoveFirst(@, t)]
+                  [] b.kind = "cv"  -> [s EXCEPT !.cq[b.o] = RemoveFirst(@, [a |-> t, m |-> b.m])]
+                  [] b.kind = "mutex" -> [s EXCEPT !.mq[b.o] = RemoveFirst(@, t)]
+                  [] b.kind = "bar" -> [s EXCEPT !.bq[b.o] = RemoveFirst(@, t)]
+                  [] OTHER -> s IN
+       CancelAll(P, [q EXCEPT !.ph[t] = "dying", !.blk[t] = NoBlk, !.tmr[t] = -1, !.res[t] = "none", !.pres[t] = "none",
+                              !.kt[t] = -1], Mine(q, t))
+RECURSIVE KillSet(_, _, _)
+KillSet(P, s, ts) == IF ts = {} THEN s ELSE LET t == CHOOSE x \in ts : TRUE IN KillSet(P, KillActor(P, s, t), ts \ {t})
+\* EngineImpl::run: when only daemons remain they are killed (checked by maestro at the end of each scheduling sub-round,
+\* i.e. some time after the last regular actor ended: a separate step)
+OnlyDaemons(P, s) == LET alive == { a \in Actors(P) : Alive(s, a) } IN
+                     alive # {} /\ (\A a \in alive : s.dmn[a]) /\ \E a \in alive : s.ph[a] \notin {"dying", "exiting"}
+DaemonKill(P, s)  == KillSet(P, s, { a \in Actors(P) : Alive(s, a) })
+\* the actor starts dying: its on_exit callbacks run in reverse registration order, each exactly once
+Terminate(P, s, a, how) ==
+  IF s.oe[a] = <<>> THEN Finish(P, s, a, how)
+  ELSE [s EXCEPT !.ph[a] = "exiting", !.oex[a] = Reverse(s.oe[a]), !.pres[a] = how]
+RunOnExit(P, s, a) ==      \* pre: s.ph[a] = "exiting"
+  LET n == [s EXCEPT !.oex[a] = Tail(@), !.oerun[a] = Append(@, Head(s.oex[a]))] IN
+  IF Len(s.oex[a]) = 1 THEN Finish(P, [n EXCEPT !.pres[a] = "none"], a, s.pres[a]) ELSE n
+
 Keep(s, a, r) == [s EXCEPT !.hnd[a] = Append(@, [c |-> s.cur[a], r |-> r, seen |-> FALSE])]
 \* Once an actor has observed the completion of one of its handles (wait returned, test said true), the s4u object is
 \* FINISHED and a later test() on it returns true at once without any simcall (Activity::wait_for always does a simcall).
 OnHandle(op) == op.op \in {"wait", "waitfor", "test"}
-IsLocal(P, s, a) == LET op == Cur(P, s, a) IN op.op = "test" /\ op.o <= Len(s.hnd[a]) /\ s.hnd[a][op.o].seen
-LocalRet(P, s, a) == LET op == Cur(P, s, a)  h == s.hnd[a][op.o] IN
-                     AnswerV(s, a, IF op.op = "test" THEN "true" ELSE "ok", IF h.r THEN s.act[h.c].pay ELSE 0)       \* an asynchronous operation returns a handle
+IsLocal(P, s, a) == LET op == Cur(P, s, a) IN
+                    \/ op.op = "test" /\ op.o <= Len(s.hnd[a]) /\ s.hnd[a][op.o].seen
+                    \/ op.op = "kill" /\ s.ph[op.o] = "unborn"        \* nobody to kill yet: no simcall
+LocalRet(P, s, a) == LET op == Cur(P, s, a) IN
+                     IF op.op = "kill" THEN Answer(s, a, "ok")
+                     ELSE LET h == s.hnd[a][op.o] IN AnswerV(s, a, "true", IF h.r THEN s.act[h.c].pay ELSE 0)       \* an asynchronous operation returns a handle
 
 \* number of simcalls of an operation (run granularity): blocking put / get / exec = start + wait
 NSub(op) == IF op.op \in {"put", "get", "mput", "mget", "exec"} THEN 2 ELSE 1
@@ -248,20 +295,32 @@ Handle(P, s, a) ==
     [] k = "execa" -> Answer(Keep([s EXCEPT !.act = Append(@, NewAct("exec", 0, a, 0, 0, op.t, "run", FALSE, s.now + op.t)),
                                             !.cur[a] = Len(s.act) + 1], a, FALSE), a, "ok")
     \* ---- handles (o = index of the handle among the asynchronous operations of the actor; t = timeout)
-    [] OnHandle(op) /\ IsLocal(P, s, a) -> LocalRet(P, s, a)
+    [] IsLocal(P, s, a) -> LocalRet(P, s, a)
     [] k = "wait"    -> IF o > Len(s.hnd[a]) THEN Abort(s, a) ELSE WaitAct(P, s, a, s.hnd[a][o].c, -1, s.hnd[a][o].r)
     [] k = "waitfor" -> IF o > Len(s.hnd[a]) THEN Abort(s, a) ELSE WaitAct(P, s, a, s.hnd[a][o].c, op.t, s.hnd[a][o].r)
     [] k = "test"    -> IF o > Len(s.hnd[a]) THEN Abort(s, a)
                         ELSE LET c == s.hnd[a][o].c IN
                              IF s.act[c].st = "done" THEN AnswerV(s, a, "true", IF s.hnd[a][o].r THEN s.act[c].pay ELSE 0)
                              ELSE Answer(s, a, "false")
+    \* ---- lifecycle (o = other actor, t = duration / date)
+    [] k = "create"   -> IF s.ph[o] # "unborn" THEN Abort(s, a)
+                         ELSE Answer([s EXCEPT !.ph[o] = IF NOps(P, o) = 0 THEN "done" ELSE "run"], a, "ok")
+    [] k = "onexit"   -> Answer([s EXCEPT !.oe[a] = Append(@, o)], a, "ok")
+    [] k = "daemon"   -> Answer([s EXCEPT !.dmn[a] = TRUE], a, "ok")
+    [] k = "killtime" -> Answer([s EXCEPT !.kt[a] = IF op.t > s.now THEN op.t ELSE -1], a, "ok")
+    [] k = "kill"     -> IF o = a THEN Undef(s, a) ELSE Answer(KillActor(P, s, o), a, "ok")
+    [] k = "killall"  -> Answer(KillSet(P, s, Actors(P) \ {a}), a, "ok")
+    [] k = "join"     -> IF s.ph[o] = "unborn" THEN Abort(s, a)
+                         ELSE IF s.ph[o] \in {"done", "dead", "dying", "exiting"} THEN Answer(s, a, "ok")
+                         ELSE Block([s EXCEPT !.tmr[a] = IF op.t >= 0 THEN s.now + op.t ELSE -1], a, "join", o, 0)
     [] OTHER -> Abort(s, a)
 
 \* ------------------------------------------------------------------ time
-Ready(s, a)     == s.ph[a] \in {"run", "issued", "answered"}
+Ready(s, a)     == s.ph[a] \in {"run", "issued", "answered", "dying", "exiting"}
 SomeReady(P, s) == \E a \in Actors(P) : Ready(s, a)
 Running(s)     == { c \in 1..Len(s.act) : s.act[c].st = "run" }
 TimerDates(P, s) == { s.tmr[a] : a \in { b \in Actors(P) : s.tmr[b] >= 0 } }
+                    \cup { s.kt[a] : a \in { b \in Actors(P) : s.kt[b] >= 0 /\ Alive(s, b) } }
                     \cup { s.act[c].fin : c \in { x \in Running(s) : s.act[x].fin >= 0 } }
 FreeRunning(s) == { c \in Running(s) : s.act[c].fin < 0 }        \* running activities whose completion date is free
 CanComplete(s, c) == c \in Running(s) /\ (s.act[c].fin < 0 \/ s.act[c].fin <= s.now)
@@ -269,7 +328,7 @@ MinDate(S) == CHOOSE d \in S : \A e \in S : d <= e
 Due(s, a)  == s.tmr[a] >= 0 /\ s.tmr[a] <= s.now
 
 \* the clock jumps to the earliest pending date, only when no actor can run and nothing is due
-CanAdvance(P, s) == ~s.aborted /\ ~SomeReady(P, s) /\ (TimerDates(P, s) # {} \/ FreeRunning(s) # {})
+CanAdvance(P, s) == ~s.aborted /\ ~SomeReady(P, s) /\ ~OnlyDaemons(P, s) /\ (TimerDates(P, s) # {} \/ FreeRunning(s) # {})
                     /\ \A d \in TimerDates(P, s) : d > s.now
 Advance(P, s)    == IF TimerDates(P, s) = {} THEN s ELSE [s EXCEPT !.now = MinDate(TimerDates(P, s))]
 
@@ -280,7 +339,10 @@ FireTimer(P, s, a) ==
     [] b.kind = "sem"   -> Answer([s EXCEPT !.sq[b.o] = RemoveFirst(@, a)], a, "timeout")
     [] b.kind = "cv"    -> LockFor(P, [s EXCEPT !.cq[b.o] = RemoveFirst(@, [a |-> a, m |-> b.m]), !.tmr[a] = -1], a, b.m, "timeout")
     [] b.kind = "act"   -> Answer(s, a, "timeout_exc")        \* wait_for: TimeoutException; the activity goes on
+    [] b.kind = "join"  -> Answer(s, a, "ok")                 \* join(t) returns after t
     [] OTHER -> s
+\* C11: an actor with a kill time dies exactly at that date
+KillDue(s, a) == s.kt[a] >= 0 /\ s.kt[a] <= s.now /\ Alive(s, a) /\ s.ph[a] \notin {"dying", "exiting"}
 \* C12: a completion at the deadline counts as completed: the timeout of a wait_for may fire only if the activity is
 \* not due to complete by now (free completion dates leave the tie open)
 CanFire(s, a) == /\ s.ph[a] = "blocked" /\ Due(s, a)
@@ -298,16 +360,16 @@ Ret(P, s, a) ==
                      !.hnd[a] = IF sees THEN [@ EXCEPT ![op.o].seen = TRUE] ELSE @,
                      !.ov[a] = Append(@, s.rval[a]) \o (IF skip THEN <<0>> ELSE <<>>),
                      !.res[a] = "none", !.rval[a] = 0, !.pc[a] = npc, !.sub[a] = 1, !.cur[a] = 0,
-                     !.ph[a] = IF npc > NOps(P, a) THEN "done" ELSE "run"] IN
-  IF npc > NOps(P, a) THEN ExitCleanup(P, n, a) ELSE n
+                     !.ph[a] = "run"] IN
+  IF npc > NOps(P, a) THEN Terminate(P, n, a, "done") ELSE n
 \* an answered simcall that is not the last one of its operation: the actor goes on with the next simcall
 MoreSub(P, s, a) == s.ph[a] = "answered" /\ s.res[a] = "ok" /\ s.sub[a] < NSub(Cur(P, s, a))
 NextSub(P, s, a) == [s EXCEPT !.sub[a] = @ + 1, !.res[a] = "none", !.rval[a] = 0, !.ph[a] = "run"]
 
 \* EngineImpl::run reports a deadlock when nothing can happen any more and some actor is not finished
-Terminal(P, s)   == ~SomeReady(P, s) /\ TimerDates(P, s) = {} /\ Running(s) = {}
+Terminal(P, s)   == ~SomeReady(P, s) /\ TimerDates(P, s) = {} /\ Running(s) = {} /\ ~OnlyDaemons(P, s)
 Deadlocked(P, s) == ~s.aborted /\ Terminal(P, s) /\ \E a \in Actors(P) : s.ph[a] = "blocked"
-AllDone(P, s)    == \A a \in Actors(P) : s.ph[a] \in {"done", "dead"}
+AllDone(P, s)    == \A a \in Actors(P) : s.ph[a] \in {"done", "dead", "unborn"}
 
 \* ------------------------------------------------------------------ properties (state predicates over (P, s))
 \* completed successful acquisitions minus completed releases of m by a, read from the actor's own history
@@ -361,7 +423,7 @@ PhaseConsistency(P, s) ==
   \A a \in Actors(P) :
      /\ (s.ph[a] = "blocked") = (s.blk[a].kind # "none")
      /\ (s.ph[a] = "answered") = (s.res[a] # "none")
-     /\ (s.tmr[a] >= 0 => s.ph[a] = "blocked" /\ s.blk[a].kind \in {"sleep", "sem", "cv", "act"})
+     /\ (s.tmr[a] >= 0 => s.ph[a] = "blocked" /\ s.blk[a].kind \in {"sleep", "sem", "cv", "act", "join"})
      /\ s.tmr[a] # -1 => s.tmr[a] >= s.now          \* C03: no pending date in the past
 
 \* C08 / C09: every payload is received at most once, only payloads that were sent are received, a queued entry is
@@ -377,8 +439,16 @@ CommExactlyOnce(P, s) ==
   /\ \A q \in Mqs(P) : ~(\E i, j \in 1..Len(s.mqq[q]) : IsSend(s.act[s.mqq[q][i]]) /\ IsRecv(s.act[s.mqq[q][j]]))
   /\ \A a \in Actors(P) : (s.ph[a] = "blocked" /\ s.blk[a].kind = "act") => s.act[s.blk[a].o].st \in {"wait", "run"}
 
+\* C11: on_exit callbacks run exactly once, in reverse registration order; nobody waits for a dead actor; daemons do not
+\* outlive the last regular actor
+Lifecycle(P, s) ==
+  /\ \A a \in Actors(P) : s.ph[a] \in {"done", "dead"} => s.oerun[a] = Reverse(s.oe[a])
+  /\ \A a \in Actors(P) : s.ph[a] = "exiting" => s.oerun[a] \o s.oex[a] = Reverse(s.oe[a])
+  /\ \A a \in Actors(P) : (s.ph[a] = "blocked" /\ s.blk[a].kind = "join") => Alive(s, s.blk[a].o) \/ s.ph[s.blk[a].o] = "unborn"
+  /\ Terminal(P, s) => \A a \in Actors(P) : ~(s.dmn[a] /\ Alive(s, a))
+
 KernelInv(P, s) == /\ MutexOwnership(P, s) /\ MutexExclusion(P, s) /\ SemConservation(P, s)
-                   /\ CvConsistency(P, s) /\ BarrierGroups(P, s) /\ PhaseConsistency(P, s) /\ CommExactlyOnce(P, s)
+                   /\ CvConsistency(P, s) /\ BarrierGroups(P, s) /\ PhaseConsistency(P, s) /\ CommExactlyOnce(P, s) /\ Lifecycle(P, s)
 
 \* what an execution leaves behind (C14 / C38: set of terminal outcomes)
 Outcome(P, s) == [ obs |-> s.obs, ov |-> s.ov, ph |-> s.ph, blk |-> [a \in Actors(P) |-> s.blk[a].kind],
